@@ -57,7 +57,7 @@ func (let *Let) adjoin(b []byte) []byte {
 	b = append(b, ' ')
 	for i, n := range let.children {
 		if 0 < i { // Binding are always on the same line as let or let*
-			b = append(b, indent[:n.left()+1]...)
+			b = newlineIndent(b, n.left())
 		}
 		b = n.adjoin(b)
 	}
